@@ -271,6 +271,16 @@ def py_violations(c, d):
             parts = len(jobs[j]['multi']) if j in jobs and 'multi' in jobs[j] else 1
             if j not in jobs or [a['sub'] for a in acts if a['job'] == j] != list(range(parts)):
                 out.append(('VMulti', r['v'], j))
+        dem_ok = all(tz(a['svc']) >= 0 for a in acts)
+        for j in route_jobs(r):
+            o = 0
+            for a in acts:
+                if a['job'] == j:
+                    o += a['dem'][0] + a['dem'][1] - a['dem'][3]
+                    if a['dem'][2] < 0 or o < 0:
+                        dem_ok = False
+        if not dem_ok:
+            out.append(('VDemand', r['v']))
         cs = [jobs[j]['compat'] for j in route_jobs(r) if j in jobs and jobs[j].get('compat')]
         if len(set(cs)) > 1:
             out.append(('VCompat', r['v']))
@@ -328,8 +338,8 @@ def solution_diffs(c, names, d):
     for k, name in enumerate(names):
         if name == 'unassigned' and (d['req'] or d['ign']):
             continue                      # pending jobs are counted differently by design
-        if name == 'tours' and empty:
-            continue
+        if name in ('tours', 'cost') and empty:
+            continue                      # a tour without jobs (C04 reports it) is dropped by the rebuild together with its fixed cost
         if d['fit'][k] != d['rebuilt']['fit'][k]:
             out.append('fitness:' + name)
     return out
